@@ -183,4 +183,126 @@ Proof.
       rewrite (c_rty _ _ _ _ HC). rewrite name_eqb_sym. reflexivity.
 Qed.
 
+(* ---- && and || : the operands are booleans when they evaluate (well-typedness), and the left operand is dropped
+        by `<left> && false` / `<left> || true` only when it cannot error ---- *)
+Definition boolish (r : residual) : Prop := forall v, R r = Ok v -> exists y, v = VBool y.
+
+Lemma and_right_sound l a b :
+  sim (R l) (R a) -> sim (R (I b)) (R b) -> boolish a -> boolish b ->
+  (can_error l = false -> forall e, R a <> Err e) ->
+  sim (R (and_right l (I b))) (R (RAnd a b)).
+Proof.
+  intros Hl Hb Ba Bb Hn. unfold and_right. destruct (shape (I b)) as [v| |] eqn:S.
+  - apply shape_val in S. rewrite S in Hb. apply sim_ok_l in Hb.
+    destruct (Bb v Hb) as [y ->]. cbn [as_bool VBool]. destruct y.
+    + cbn [reval]. rewrite Hb. destruct (R a) as [va|ea] eqn:Ea.
+      * destruct (Ba va Ea) as [x ->]. destruct x; cbn; exact Hl.
+      * cbn. exact Hl.
+    + destruct (can_error l) eqn:Ce; cbn [negb].
+      * apply and_cong; [exact Hl|]. rewrite Hb. cbn. reflexivity.
+      * cbn [reval]. rewrite Hb. destruct (R a) as [va|ea] eqn:Ea; [|exfalso; exact (Hn eq_refl ea eq_refl)].
+        destruct (Ba va Ea) as [x ->]. destruct x; cbn; reflexivity.
+  - apply and_cong; assumption.
+  - apply and_cong; assumption.
+Qed.
+
+Lemma sound_and a b :
+  sim (R (I a)) (R a) -> sim (R (I b)) (R b) -> boolish a -> boolish b ->
+  (can_error (I a) = false -> forall e, R a <> Err e) ->
+  sim (R (I (RAnd a b))) (R (RAnd a b)).
+Proof.
+  intros Ha Hb Ba Bb Hn. cbn [interp]. destruct (shape (I a)) as [v| |] eqn:S.
+  - apply shape_val in S. rewrite S in Ha. apply sim_ok_l in Ha.
+    destruct (Ba v Ha) as [x ->]. cbn [as_bool VBool]. destruct x.
+    + cbn [reval]. rewrite Ha. cbn [bind as_bool VBool].
+      destruct (R b) as [vb|eb] eqn:Eb.
+      * destruct (Bb vb Eb) as [y ->]. cbn. exact Hb.
+      * cbn. exact Hb.
+    + cbn [reval]. rewrite Ha. cbn. reflexivity.
+  - apply shape_err in S. rewrite S in Ha. apply sim_err_l in Ha as [e He].
+    cbn [reval]. rewrite He. cbn. exact Logic.I.
+  - apply and_right_sound; assumption.
+Qed.
+
+Lemma or_right_sound l a b :
+  sim (R l) (R a) -> sim (R (I b)) (R b) -> boolish a -> boolish b ->
+  (can_error l = false -> forall e, R a <> Err e) ->
+  sim (R (or_right l (I b))) (R (ROr a b)).
+Proof.
+  intros Hl Hb Ba Bb Hn. unfold or_right. destruct (shape (I b)) as [v| |] eqn:S.
+  - apply shape_val in S. rewrite S in Hb. apply sim_ok_l in Hb.
+    destruct (Bb v Hb) as [y ->]. cbn [as_bool VBool]. destruct y.
+    + destruct (can_error l) eqn:Ce; cbn [negb].
+      * apply or_cong; [exact Hl|]. rewrite Hb. cbn. reflexivity.
+      * cbn [reval]. rewrite Hb. destruct (R a) as [va|ea] eqn:Ea; [|exfalso; exact (Hn eq_refl ea eq_refl)].
+        destruct (Ba va Ea) as [x ->]. destruct x; cbn; reflexivity.
+    + cbn [reval]. rewrite Hb. destruct (R a) as [va|ea] eqn:Ea.
+      * destruct (Ba va Ea) as [x ->]. destruct x; cbn; exact Hl.
+      * cbn. exact Hl.
+  - apply or_cong; assumption.
+  - apply or_cong; assumption.
+Qed.
+
+Lemma sound_or a b :
+  sim (R (I a)) (R a) -> sim (R (I b)) (R b) -> boolish a -> boolish b ->
+  (can_error (I a) = false -> forall e, R a <> Err e) ->
+  sim (R (I (ROr a b))) (R (ROr a b)).
+Proof.
+  intros Ha Hb Ba Bb Hn. cbn [interp]. destruct (shape (I a)) as [v| |] eqn:S.
+  - apply shape_val in S. rewrite S in Ha. apply sim_ok_l in Ha.
+    destruct (Ba v Ha) as [x ->]. cbn [as_bool VBool]. destruct x.
+    + cbn [reval]. rewrite Ha. cbn. reflexivity.
+    + cbn [reval]. rewrite Ha. cbn [bind as_bool VBool].
+      destruct (R b) as [vb|eb] eqn:Eb.
+      * destruct (Bb vb Eb) as [y ->]. cbn. exact Hb.
+      * cbn. exact Hb.
+  - apply shape_err in S. rewrite S in Ha. apply sim_err_l in Ha as [e He].
+    cbn [reval]. rewrite He. cbn. exact Logic.I.
+  - apply or_right_sound; assumption.
+Qed.
+
+(* ---- getAttr / hasAttr: records, entities with known attributes, entities with unknown attributes or missing
+        from the partial store (kept), anything else an error ---- *)
+Lemma sound_getattr e k : sim (R (I e)) (R e) -> sim (R (I (RGetAttr e k))) (R (RGetAttr e k)).
+Proof.
+  intros He. cbn [interp]. destruct (shape (I e)) as [v| |] eqn:S.
+  - pose proof (shape_val _ _ S) as S'. rewrite S' in He. apply sim_ok_l in He.
+    destruct v as [p|l|r|x].
+    + destruct p as [b|z|s|u]; try (cbn [reval]; rewrite He; cbn; exact Logic.I).
+      unfold get_attrs. destruct (find_pentity u pes) as [pe|] eqn:F.
+      * destruct (c_ents _ _ _ _ HC u pe F) as [d [Hd [Ha _]]].
+        destruct (pe_attrs pe) as [attrs|] eqn:A.
+        -- specialize (Ha attrs eq_refl). cbn [reval]. rewrite He. cbn [bind]. unfold get_attr. rewrite Hd, Ha.
+           destruct (lookup k attrs); cbn; auto.
+        -- cbn [reval]. rewrite S', He. cbn [reval bind]. apply sim_refl.
+      * cbn [reval]. rewrite S', He. cbn [reval bind]. apply sim_refl.
+    + cbn [reval]. rewrite He. cbn. exact Logic.I.
+    + cbn [reval]. rewrite He. cbn [bind]. unfold get_attr. destruct (lookup k r); cbn; auto.
+    + cbn [reval]. rewrite He. cbn. exact Logic.I.
+  - apply shape_err in S. rewrite S in He. apply sim_err_l in He as [e0 He0].
+    cbn [reval]. rewrite He0. cbn. exact Logic.I.
+  - apply getattr_cong; assumption.
+Qed.
+
+Lemma sound_hasattr e k : sim (R (I e)) (R e) -> sim (R (I (RHasAttr e k))) (R (RHasAttr e k)).
+Proof.
+  intros He. cbn [interp]. destruct (shape (I e)) as [v| |] eqn:S.
+  - pose proof (shape_val _ _ S) as S'. rewrite S' in He. apply sim_ok_l in He.
+    destruct v as [p|l|r|x].
+    + destruct p as [b|z|s|u]; try (cbn [reval]; rewrite He; cbn; exact Logic.I).
+      unfold get_attrs. destruct (find_pentity u pes) as [pe|] eqn:F.
+      * destruct (c_ents _ _ _ _ HC u pe F) as [d [Hd [Ha _]]].
+        destruct (pe_attrs pe) as [attrs|] eqn:A.
+        -- specialize (Ha attrs eq_refl). cbn [reval]. rewrite He. cbn [bind]. unfold has_attr. rewrite Hd, Ha.
+           cbn. reflexivity.
+        -- cbn [reval]. rewrite S', He. cbn [reval bind]. apply sim_refl.
+      * cbn [reval]. rewrite S', He. cbn [reval bind]. apply sim_refl.
+    + cbn [reval]. rewrite He. cbn. exact Logic.I.
+    + cbn [reval]. rewrite He. cbn. reflexivity.
+    + cbn [reval]. rewrite He. cbn. exact Logic.I.
+  - apply shape_err in S. rewrite S in He. apply sim_err_l in He as [e0 He0].
+    cbn [reval]. rewrite He0. cbn. exact Logic.I.
+  - apply hasattr_cong; assumption.
+Qed.
+
 End Sound.
